@@ -179,7 +179,24 @@ def F5a_parallel():
     return None if not bad else f"wrong segment distance: {bad}"
 
 
-ALL = [F1_hashseed, F2_long_edge, F3_latlon_box, F6c_latlon_inf, F4_sqlite_bb, F5a_parallel, F6a_obs_on_road,
+def F15_latlon_triples_node_mode():
+    """C17: lat-lon metric, node-and-edge states, non-emitting states, (lat, lon, time) triples raised 'too many values to unpack'
+    (dist_latlon.distance_point_to_segment unpacked the segment end points, which are observations here)."""
+    from leuvenmapmatching.map.inmem import InMemMap
+    from leuvenmapmatching.matcher.simple import SimpleMatcher
+    g = {1: ((50.0, 4.0), [2]), 2: ((50.001, 4.0), [1, 3]), 3: ((50.002, 4.0), [2, 4]), 4: ((50.003, 4.0), [3])}
+    pairs = [(50.0001, 4.0001), (50.0029, 4.0001)]
+    out = []
+    for tr in (pairs, [p + (float(i),) for i, p in enumerate(pairs)]):
+        m = InMemMap('m', use_latlon=True, graph={k: (v[0], list(v[1])) for k, v in g.items()})
+        try:
+            out.append(SimpleMatcher(m, obs_noise=20, max_dist=200, non_emitting_states=True, only_edges=False).match(tr))
+        except Exception as e:
+            out.append(repr(e))
+    return None if out[0] == out[1] else f"pairs -> {out[0]}, triples -> {out[1]}"
+
+
+ALL = [F15_latlon_triples_node_mode, F1_hashseed, F2_long_edge, F3_latlon_box, F6c_latlon_inf, F4_sqlite_bb, F5a_parallel, F6a_obs_on_road,
        F6b_triples_planar_ne, F7_sqlite_reopen_flag, F8_debug_changes_result, F12_sqlite_float32]
 
 if __name__ == '__main__':
